@@ -30,6 +30,7 @@ func init() {
 		Imports: []Import{
 			{From: "C08.b", Match: "tier-purged", As: "C10.h", Why: "the server answers from the Store read path: a pruned header must be gone from every tier, or it is served after deletion"},
 			{From: "C14.d", Match: "cache-purge", As: "C10.h", Why: "same: the parallel deletion path purges the caches the server reads through"},
+			{From: "C04.e", As: "C10.i", Why: "an OK answer is exactly the headers at origin, origin+1, …: the range read the server relies on hands back the whole requested range or an error, never a part of it"},
 		},
 	})
 }
@@ -300,6 +301,7 @@ func runC10(c *an.Ctx) {
 		}
 	})
 	c.Min("C10.d", "response write sites", len(writes), 1)
+	checkRequestLifecycle(c, "C10.f", handler, writes, []*ssa.Function{byHash, rng}, nil)
 	// the error variable: phi of the handler results
 	var errPhi ssa.Value
 	for _, call := range append(callsTo(handler, rng), callsTo(handler, byHash)...) {
